@@ -22,6 +22,8 @@ import (
 	mh "github.com/multiformats/go-multihash"
 )
 
+var vZeroOrder = bitstr.Key("0000000000000000")
+
 const vL = 4 // peers / multihashes are abstracted to the first vL bits of their identifier
 
 var (
@@ -95,7 +97,7 @@ func vTrie(keys []bitstr.Key) *trie.Trie[bitstr.Key, int] {
 }
 
 func vKeysOf[D any](t *trie.Trie[bitstr.Key, D]) []bitstr.Key {
-	ks := AllKeys(t, bitstr.Key(""))
+	ks := AllKeys(t, vZeroOrder)
 	sort.Slice(ks, func(i, j int) bool { return ks[i] < ks[j] })
 	return ks
 }
@@ -213,18 +215,30 @@ func recRegions(peerVals []int, size int, order int, covered bitstr.Key, keyVals
 
 func recGaps(t []bitstr.Key, target, order bitstr.Key) vRec {
 	g := TrieGaps(vTrie(t), target, order)
-	return vRec{"f": "gaps", "t": vBitsList(t), "target": vBits(target), "order": vBits(order), "out": vBitsList(g)}
+	return vRec{"f": "gaps", "tr": vBitsList(t), "target": vBits(target), "order": vBits(order), "out": vBitsList(g)}
 }
 
 func recSubtract(t0, t1 []bitstr.Key) vRec {
 	res := SubtractTrie(vTrie(t0), vTrie(t1))
-	return vRec{"f": "subtract", "t0": vBitsList(t0), "t1": vBitsList(t1), "out": vBitsList(vKeysOf(res))}
+	return vRec{"f": "subtract", "tr0": vBitsList(t0), "tr1": vBitsList(t1), "out": vBitsList(vKeysOf(res))}
 }
 
 func recCoalesce(t []bitstr.Key) vRec {
 	tr := vTrie(t)
 	CoalesceTrie(tr)
-	return vRec{"f": "coalesce", "t": vBitsList(t), "out": vBitsList(vKeysOf(tr))}
+	return vRec{"f": "coalesce", "tr": vBitsList(t), "out": vBitsList(vKeysOf(tr))}
+}
+
+// vNextOK: NextNonEmptyLeaf is called by the provider with a key that is in the
+// trie or that does not overlap any key of the trie (precondition of the
+// definition; a proper prefix of a trie key is never passed)
+func vNextOK(t []bitstr.Key, k bitstr.Key) bool {
+	for _, x := range t {
+		if x != k && (IsBitstrPrefix(x, k) || IsBitstrPrefix(k, x)) {
+			return false
+		}
+	}
+	return len(k) > 0
 }
 
 func recNext(t []bitstr.Key, k, order bitstr.Key) vRec {
@@ -233,15 +247,15 @@ func recNext(t []bitstr.Key, k, order bitstr.Key) vRec {
 	if e != nil {
 		out = append(out, vBits(e.Key))
 	}
-	return vRec{"f": "next", "t": vBitsList(t), "k": vBits(k), "order": vBits(order), "out": out}
+	return vRec{"f": "next", "tr": vBitsList(t), "k": vBits(k), "order": vBits(order), "out": out}
 }
 
 func recPrune(t []bitstr.Key, k bitstr.Key) vRec {
 	tr := vTrie(t)
 	PruneSubtrie(tr, k)
 	// the pruned trie must still be walkable
-	gaps := TrieGaps(tr, bitstr.Key(""), bitstr.Key(""))
-	return vRec{"f": "prune", "t": vBitsList(t), "k": vBits(k), "out": vBitsList(vKeysOf(tr)), "gapsafter": vBitsList(gaps), "size": tr.Size()}
+	gaps := TrieGaps(tr, bitstr.Key(""), vZeroOrder)
+	return vRec{"f": "prune", "tr": vBitsList(t), "k": vBits(k), "out": vBitsList(vKeysOf(tr)), "gapsafter": vBitsList(gaps), "size": tr.Size()}
 }
 
 func recFind(t []bitstr.Key, k bitstr.Key) vRec {
@@ -255,11 +269,11 @@ func recFind(t []bitstr.Key, k bitstr.Key) vRec {
 	if sok {
 		subk = vBitsList(vKeysOf(sub))
 	}
-	return vRec{"f": "find", "t": vBitsList(t), "k": vBits(k), "prefix": outp, "subok": sok, "sub": subk}
+	return vRec{"f": "find", "tr": vBitsList(t), "k": vBits(k), "prefix": outp, "subok": sok, "sub": subk}
 }
 
 func recCovered(t []bitstr.Key) vRec {
-	return vRec{"f": "covered", "t": vBitsList(t), "out": KeyspaceCovered(vTrie(t))}
+	return vRec{"f": "covered", "tr": vBitsList(t), "out": KeyspaceCovered(vTrie(t))}
 }
 
 func recShortest(target bitstr.Key, peerVals []int) vRec {
@@ -364,7 +378,7 @@ func TestVerifKeyspace(t *testing.T) {
 				emit(recFind(t0, k))
 				for _, o := range []bitstr.Key{vStr(0, nb), vStr((1<<nb)-1, nb), vStr(1, nb)} {
 					emit(recGaps(t0, k, o))
-					if len(k) > 0 {
+					if vNextOK(t0, k) {
 						emit(recNext(t0, k, o))
 					}
 				}
@@ -414,8 +428,11 @@ func TestVerifKeyspace(t *testing.T) {
 			emit(recPrune(t0, k))
 			emit(recFind(t0, k))
 			emit(recCovered(t0))
-			if len(k) > 0 {
+			if vNextOK(t0, k) {
 				emit(recNext(t0, k, o))
+			}
+			if len(t0) > 0 {
+				emit(recNext(t0, t0[r.Intn(len(t0))], o))
 			}
 			var items, dests []bitstr.Key
 			for _, v := range vSubset(r, 16, 0.4) {
@@ -472,19 +489,19 @@ func vReplay(m map[string]any) vRec {
 	case "regions":
 		return recRegions(il(m["peers"]), int(m["size"].(float64)), int(m["order"].(float64)), bs(m["covered"]), il(m["keys"]))
 	case "gaps":
-		return recGaps(bl(m["t"]), bs(m["target"]), bs(m["order"]))
+		return recGaps(bl(m["tr"]), bs(m["target"]), bs(m["order"]))
 	case "subtract":
-		return recSubtract(bl(m["t0"]), bl(m["t1"]))
+		return recSubtract(bl(m["tr0"]), bl(m["tr1"]))
 	case "coalesce":
-		return recCoalesce(bl(m["t"]))
+		return recCoalesce(bl(m["tr"]))
 	case "next":
-		return recNext(bl(m["t"]), bs(m["k"]), bs(m["order"]))
+		return recNext(bl(m["tr"]), bs(m["k"]), bs(m["order"]))
 	case "prune":
-		return recPrune(bl(m["t"]), bs(m["k"]))
+		return recPrune(bl(m["tr"]), bs(m["k"]))
 	case "find":
-		return recFind(bl(m["t"]), bs(m["k"]))
+		return recFind(bl(m["tr"]), bs(m["k"]))
 	case "covered":
-		return recCovered(bl(m["t"]))
+		return recCovered(bl(m["tr"]))
 	case "shortest":
 		return recShortest(bs(m["target"]), il(m["peers"]))
 	}
